@@ -4,5 +4,6 @@ package store
 
 // Counterparts of the verification hooks in verif_export.go: no-ops in normal builds.
 
-func verifResolveSpawned()  {}
-func verifResolveFinished() {}
+func verifResolveSpawned()        {}
+func verifResolveFinished()       {}
+func verifAfterCacheLayer(string) {}
